@@ -122,13 +122,20 @@ def stack_addons():
         from mitmproxy.addons import proxyserver
         from common.paths import REPO
         certs = os.path.join(REPO, "test", "mitmproxy", "net", "data", "verificationcerts")
+        from mitmproxy.addons import next_layer
         ta = tlsconfig.TlsConfig()
-        cm = taddons.context(proxyserver.Proxyserver(), ta)
+        nl = next_layer.NextLayer()
+        cm = taddons.context(proxyserver.Proxyserver(), nl, ta)
         tctx = cm.__enter__()
         tctx.configure(ta, confdir=os.path.join(WORK, "c18-conf"),
                        ssl_verify_upstream_trusted_ca=os.path.join(certs, "trusted-root.crt"))
+        nl.configure(["ignore_hosts", "allow_hosts", "tcp_hosts", "udp_hosts"])
         _STACK = (ta, tctx, cm, certs)
+        _STACK_NL.append(nl)
     return _STACK
+
+
+_STACK_NL = []
 
 
 class _Peer:
@@ -161,6 +168,11 @@ class _Peer:
             except self.ssl.SSLError as e:
                 self.error = type(e).__name__
         return self.out.read()
+
+
+def prefs_field(kind):
+    v = UPSTREAM_KINDS[kind]
+    return "noalpn" if v is None else ",".join(hx(x.encode()) for x in v)
 
 
 UPSTREAM_KINDS = {"h2": ["h2", "http/1.1"], "http/1.1": ["http/1.1"], "noalpn": None, "foreign": ["zzz-not-offered"],
@@ -229,6 +241,111 @@ def run_stack(offers, upstream_kind, http2, eager):
             "proxy_client_alpn": opt_hex(ctx.client.alpn), "proxy_server_alpn": opt_hex(ctx.server.alpn),
             "upstream_offers": [hx(x) for x in (ctx.server.alpn_offers or [])]}
 
+def run_nested(outer_offers, inner_offers, upstream_kind, http2, eager):
+    """nested client TLS through the real layer stack: modes.HttpProxy (secure web proxy: the client speaks TLS to the proxy)
+    -> CONNECT -> inner TLS to the origin, with the real NextLayer + TlsConfig addons answering every hook.
+    The SAME Client object carries the outer session's attributes when the inner ClientTLSLayer starts."""
+    from mitmproxy import connection
+    from mitmproxy.proxy import commands, context, events
+    from mitmproxy.proxy.layers import modes
+    from mitmproxy.proxy.mode_specs import ProxyMode
+    ta, tctx, _, certs = stack_addons()
+    nl = _STACK_NL[0]
+    tctx.options.http2 = http2
+    tctx.options.connection_strategy = "eager" if eager else "lazy"
+    client = connection.Client(peername=("127.0.0.1", 51234), sockname=("127.0.0.1", 8080), timestamp_start=1.0,
+                               state=connection.ConnectionState.OPEN)
+    client.proxy_mode = ProxyMode.parse("regular")
+    ctx = context.Context(client, tctx.options)
+    top = modes.HttpProxy(ctx)
+    outer = _Peer(False, [o.decode("ascii") for o in outer_offers], certs)
+    inner = _Peer(False, [o.decode("ascii") for o in inner_offers], certs)
+    upstream = _Peer(True, UPSTREAM_KINDS[upstream_kind], certs)
+    servers, info = [], {"layers_at_start_client": [], "pins": []}
+
+    def dispatch(event):
+        queue = [event]; steps = 0
+        while queue:
+            steps += 1
+            if steps > 2000: raise RuntimeError("nested: step limit")
+            ev = queue.pop(0)
+            for cmd in list(top.handle_event(ev)):
+                if isinstance(cmd, commands.StartHook):
+                    if cmd.name == "tls_start_client":
+                        info["layers_at_start_client"].append([type(l).__name__ for l in ctx.layers])
+                        info["pins"].append(opt_hex(client.alpn))
+                    for a in (nl, ta):
+                        fn = getattr(a, cmd.name, None)
+                        if fn: fn(*cmd.args())
+                    queue.append(events.HookCompleted(cmd))
+                elif isinstance(cmd, commands.OpenConnection):
+                    cmd.connection.state = connection.ConnectionState.OPEN
+                    cmd.connection.timestamp_start = 2.0
+                    cmd.connection.peername = ("192.0.2.1", 443)
+                    servers.append(cmd.connection)
+                    queue.append(events.OpenConnectionCompleted(cmd, None))
+                elif isinstance(cmd, commands.SendData):
+                    (outer if cmd.connection is client else upstream).inc.write(cmd.data)
+
+    state = {"plain": b"", "tunnel": False}
+
+    def read_plain(peer):
+        buf = b""
+        while True:
+            try:
+                chunk = peer.obj.read(65535)
+            except peer.ssl.SSLWantReadError:
+                break
+            except peer.ssl.SSLError:
+                break
+            if not chunk: break
+            buf += chunk
+        return buf
+
+    def pump():
+        for _ in range(60):
+            moved = False
+            out_data = outer.step()
+            if outer.done:
+                plain = read_plain(outer)
+                if plain:
+                    state["plain"] += plain
+                    if state["tunnel"]:
+                        inner.inc.write(plain); moved = True
+                if state["tunnel"]:
+                    data = inner.step()
+                    if data:
+                        outer.obj.write(data); moved = True
+            data = out_data + outer.out.read()
+            if data:
+                dispatch(events.DataReceived(client, data)); moved = True
+            if servers:
+                data = upstream.step()
+                if data:
+                    dispatch(events.DataReceived(servers[-1], data)); moved = True
+            if not moved: break
+
+    dispatch(events.Start())
+    pump()
+    res = {"outer_done": outer.done, "outer_got": "none", "inner_done": False, "inner_got": "none", "upstream_done": False,
+           "upstream_got": "none", "connect_ok": False, "layers": info["layers_at_start_client"], "pins": info["pins"],
+           "upstream_offers": []}
+    if not outer.done: return res
+    res["outer_got"] = opt_hex((outer.obj.selected_alpn_protocol() or "").encode())
+    if res["outer_got"] == hx(H2): return res        # the client would speak HTTP/2 to the proxy now; CONNECT over h2 is not driven
+    outer.obj.write(b"CONNECT example.mitmproxy.org:443 HTTP/1.1\r\nHost: example.mitmproxy.org:443\r\n\r\n")
+    pump()
+    res["connect_ok"] = state["plain"].startswith(b"HTTP/1.1 200")
+    if not res["connect_ok"]: return res
+    state["tunnel"] = True
+    pump()
+    res["inner_done"], res["upstream_done"] = inner.done, upstream.done
+    if inner.done: res["inner_got"] = opt_hex((inner.obj.selected_alpn_protocol() or "").encode())
+    if upstream.done: res["upstream_got"] = opt_hex((upstream.obj.selected_alpn_protocol() or "").encode())
+    res["layers"], res["pins"] = info["layers_at_start_client"], info["pins"]
+    if servers: res["upstream_offers"] = [hx(x) for x in (servers[-1].alpn_offers or [])]
+    return res
+
 
 class Check(PropertyCheck):
     prop = "C18"
@@ -265,7 +382,10 @@ class Check(PropertyCheck):
                     "mitmproxy.proxy.layers.tls:TLSLayer.start_tls",
                     "mitmproxy.proxy.layers.tls:ClientTLSLayer.receive_handshake_data",
                     "mitmproxy.proxy.layers.tls:ClientTLSLayer.start_server_tls",
-                    "mitmproxy.proxy.layers.tls:ServerTLSLayer.start_handshake"]
+                    "mitmproxy.proxy.layers.tls:ServerTLSLayer.start_handshake",
+                    "mitmproxy.proxy.layers.tls:ClientTLSLayer.__init__",
+                    "mitmproxy.proxy.layers.quic._stream_layers:ClientQuicLayer.__init__",
+                    "mitmproxy.addons.next_layer:NextLayer._setup_explicit_http_proxy"]
     trusted_base = ["OpenSSL/pyOpenSSL ALPN: the select callback receives the client's offers; its return value is what is negotiated",
                     "TLS: the protocol negotiated upstream is one of the protocols offered upstream"]
     parallel = False
@@ -323,7 +443,16 @@ class Check(PropertyCheck):
         def proto():
             return rng.pick(cls) if rng.chance(0.8) else rng.pick(pool) if rng.chance(0.7) else rng.bytes_(rng.randint(0, 6))
 
-        # the real TLS layer stack first: client offers x upstream peer x order x http2
+        # nested client TLS (secure web proxy: TLS to the proxy, CONNECT, TLS to the origin) through the real layer stack
+        for outer in ([], [H11], [H2, H11]):
+            for inner in ([H2, H11], [H11, H2], [H2], [H11]):
+                for up in ("h2", "http/1.1", "noalpn"):
+                    for h in (True, False):
+                        for eager in (True, False):
+                            if tier == "quick" and not eager and (up != "h2" or inner[0] != H2): continue
+                            yield {"op": "nested", "outer": [hx(x) for x in outer], "offers": [hx(x) for x in inner], "up": up,
+                                   "http2": h, "eager": eager}
+        # the real TLS layer stack: client offers x upstream peer x order x http2
         stack_offers = [[H2, H11], [H11, H2], [H2], [H11], [UNKNOWN1, H2], []]
         for o in stack_offers:
             for up in ("noalpn", "h2", "http/1.1", "foreign"):
@@ -345,6 +474,11 @@ class Check(PropertyCheck):
                 yield {"op": "srv", "client_offers": [hx(x) for x in o], "preset": [hx(H11)], "http2": h}
         while True:
             r = rng.random()
+            if rng.chance(0.002 if tier == "quick" else 0.001):
+                mk = lambda: list(dict.fromkeys(rng.pick(cls + [b"h2c"]) for _ in range(rng.randint(0, 3))))
+                yield {"op": "nested", "outer": [hx(x) for x in rng.pick([[], [H11], [H2, H11], [H11, H2], [H2], mk()])],
+                       "offers": [hx(x) for x in mk()], "up": rng.pick(sorted(UPSTREAM_KINDS)), "http2": rng.chance(0.5), "eager": rng.chance(0.7)}
+                continue
             if rng.chance(0.004 if tier == "quick" else 0.002):
                 k = rng.randint(0, 4)
                 offers = list(dict.fromkeys(rng.pick(cls + [b"h3-29", b"h2c"]) for _ in range(k)))
@@ -375,6 +509,11 @@ class Check(PropertyCheck):
         if op == "cb":
             r = call_cb(opt_unhex(case["c"]), opt_unhex(case["s"]), case["http2"], [unhx(x) for x in case["offers"]])
             return {"r": opt_hex(r)}
+        if op == "nested":
+            import json
+            obs = run_nested([unhx(x) for x in case["outer"]], [unhx(x) for x in case["offers"]], case["up"], case["http2"], case["eager"])
+            self._stash = (json.dumps(case, sort_keys=True), obs)
+            return obs
         if op == "stack":
             import json
             obs = run_stack([unhx(x) for x in case["offers"]], case["up"], case["http2"], case["eager"])
@@ -411,6 +550,19 @@ class Check(PropertyCheck):
             c, s = opt_unhex(case["c"]), opt_unhex(case["s"])
             offers = [unhx(x) for x in case["offers"]]
             return self.judge(c, s, case["http2"], offers, opt_unhex(obs["r"]), swp=(c == H11) or None)
+        if op == "nested":
+            fails = []
+            if not obs["outer_done"]:
+                return ["nested TLS: the outer handshake with the secure web proxy did not complete"]
+            # 'on a secure web proxy's outer connection only HTTP/1.1 is selected' (and what is selected was offered)
+            fails += self.judge(H11, None, case["http2"], [unhx(x) for x in case["outer"]], unhx(obs["outer_got"]) or None, swp=True)
+            if fails: return fails
+            if not obs["connect_ok"]: return ["nested TLS: CONNECT through the secure web proxy was not answered with 200"]
+            if not obs["inner_done"] or (case["eager"] and not obs["upstream_done"]):
+                return ["nested TLS: inner/upstream handshake did not complete"]
+            # the inner connection is an ordinary client connection: sentences 1-3 on what the client peer negotiated
+            return self.judge(None, self._stack_upstream(case, obs), case["http2"], [unhx(x) for x in case["offers"]],
+                              unhx(obs["inner_got"]) or None)
         if op == "stack":
             if not obs["client_done"] or (case["eager"] and not obs["upstream_done"]):
                 return ["TLS layer stack: handshake did not complete (client %s / upstream %s)" % (obs["client_err"], obs["upstream_err"])]
@@ -441,6 +593,8 @@ class Check(PropertyCheck):
             c, s, offers, r = opt_unhex(case["c"]), opt_unhex(case["s"]), [unhx(x) for x in case["offers"]], opt_unhex(obs["r"])
         elif case["op"] == "hs" and not case["swp"]:
             c, s, offers, r = None, opt_unhex(case["s"]), [unhx(x) for x in case["offers"]], unhx(obs["proxy_side"]) or None
+        elif case["op"] == "nested" and obs.get("inner_done"):
+            c, s, offers, r = None, self._stack_upstream(case, obs), [unhx(x) for x in case["offers"]], unhx(obs["inner_got"]) or None
         elif case["op"] == "stack" and obs.get("client_done"):
             c, s, offers, r = None, self._stack_upstream(case, obs), [unhx(x) for x in case["offers"]], unhx(obs["client_got"]) or None
         else:
@@ -458,6 +612,22 @@ class Check(PropertyCheck):
         op = case["op"]
         if op == "cb":
             return [f"cb {case['c']} {case['s']} {int(case['http2'])} " + (",".join(case["offers"]) or "nil")]
+        if op == "nested":
+            # the model predicts the outer selection from (swp, outer offers) and the inner one from
+            # (inner offers, upstream protocol, http2, addon pin = none) only: nothing of the outer session may leak in
+            import json
+            key = json.dumps(case, sort_keys=True)
+            obs = self._stash[1] if getattr(self, "_stash", (None,))[0] == key else self.impl(case)
+            lines = []
+            if obs["outer_done"] and case["outer"]:
+                lines.append(f"hs 1 none none {int(case['http2'])} " + ",".join(case["outer"]))
+            if obs["inner_done"] and case["offers"] and (obs["upstream_done"] or not case["eager"]):
+                lines.append(f"hs 0 none {opt_hex(self._stack_upstream(case, obs))} {int(case['http2'])} " + ",".join(case["offers"]))
+                if case["eager"]: lines.append(f"srv {int(case['http2'])} nil " + ",".join(case["offers"]))
+                # the whole session predicted from the inputs alone (upstream peer's choice included)
+                lines.append(f"nested {int(case['http2'])} {int(case['eager'])} {prefs_field(case['up'])} "
+                             + (",".join(case["outer"]) or "nil") + " " + (",".join(case["offers"]) or "nil"))
+            return lines or None
         if op == "stack":
             # the model is fed what the upstream PEER negotiated (impl() of this case has just run in this process)
             import json
@@ -466,7 +636,10 @@ class Check(PropertyCheck):
             if not case["offers"] or not obs["client_done"] or (case["eager"] and not obs["upstream_done"]): return None
             up = self._stack_upstream(case, obs)
             lines = [f"hs 0 none {opt_hex(up)} {int(case['http2'])} " + ",".join(case["offers"])]
-            if case["eager"]: lines.append(f"srv {int(case['http2'])} nil " + ",".join(case["offers"]))
+            if case["eager"]:
+                lines.append(f"srv {int(case['http2'])} nil " + ",".join(case["offers"]))
+                # upstream peer's choice and the client's protocol predicted from the inputs alone
+                lines.append(f"chain {int(case['http2'])} {prefs_field(case['up'])} " + ",".join(case["offers"]))
             return lines
         if op == "srv":
             return [f"srv {int(case['http2'])} " + (",".join(case["preset"]) or "nil") + " " + (",".join(case["client_offers"]) or "nil")]
@@ -475,13 +648,26 @@ class Check(PropertyCheck):
         return [f"hs {int(case['swp'])} none {case['s']} {int(case['http2'])} " + ",".join(case["offers"])]
 
     def model_obs(self, case, replies):
-        return list(replies) if case["op"] == "stack" else replies[0]
+        return list(replies) if case["op"] in ("stack", "nested") else replies[0]
 
     def impl_view(self, case, obs):
         op = case["op"]
+        if op == "nested":
+            g = lambda v: "none" if v == "-" else v
+            v = []
+            if obs["outer_done"] and case["outer"]: v.append(g(obs["outer_got"]))
+            if obs["inner_done"] and case["offers"] and (obs["upstream_done"] or not case["eager"]):
+                v.append(g(obs["inner_got"]))
+                if case["eager"]: v.append(",".join(obs["upstream_offers"]) or "nil")
+                n = lambda x: "none" if x in ("-", "none") else x
+                v.append(f"{n(obs['outer_got'])} {n(obs['upstream_got'])} {n(obs['inner_got'])}")
+            return v
         if op == "stack":
             v = ["none" if obs["client_got"] == "-" else obs["client_got"]]
-            if case["eager"]: v.append(",".join(obs["upstream_offers"]) or "nil")
+            if case["eager"]:
+                v.append(",".join(obs["upstream_offers"]) or "nil")
+                n = lambda x: "none" if x in ("-", "none") else x
+                v.append(f"{n(obs['upstream_got'])} {n(obs['client_got'])}")
             return v
         if op == "cb": return obs["r"]
         if op == "srv": return ",".join(obs["offers"]) or "nil"
@@ -491,10 +677,13 @@ class Check(PropertyCheck):
         key = "offers" if case["op"] != "srv" else "client_offers"
         if not case[key]: return None
         return (case["op"], case.get("c"), case.get("s"), case["http2"], tuple(case[key]), case.get("swp"), tuple(case.get("preset", ())),
-                case.get("up"), case.get("eager"))
+                case.get("up"), case.get("eager"), tuple(case.get("outer", ())))
 
     def branches(self, case, obs):
         op = case["op"]
+        if op == "nested":
+            g = lambda v: "none" if v in ("-", "none") else unhx(v).decode("latin1")
+            return [f"nested:{'server-first' if case['eager'] else 'client-first'}:outer={g(obs['outer_got'])}:upstream={g(obs['upstream_got'])}:inner={g(obs['inner_got'])}"]
         if op == "stack":
             g = lambda v: "none" if v in ("-", "none") else unhx(v).decode("latin1")
             return [f"stack:{'server-first' if case['eager'] else 'client-first'}:up={case['up']}:upstream={g(obs['upstream_got'])}:client={g(obs['client_got'])}"]
